@@ -264,7 +264,7 @@ def shim_rules(prog, rep):
              'writers of caller_validated: %s, constructors: %s; allowed %s / %s' % (writers, cons, sorted(allowed['writers']), sorted(allowed['constructors'])))
     # RefCell::replace(true) call sites on caller_validated
     sites = []
-    for f in prog.fns.values():
+    for f in prog.bodies():
         if f.crate != 'fil_actors_runtime' or f.kind in ('promoted', 'const'):
             continue
         for c in f.calls:
